@@ -252,6 +252,11 @@ class Device(object):
             st['awaiting_ack'] = True
             st['sent'] += 1
             self.send('WRTE', rid, st['local'], chunk)
+            inj = cfg.get('inject', {}).get(st['svc'])
+            if inj is not None and inj[0] == st['sent'] and not st.get('injected'):
+              st['injected'] = True
+              self.count('illegal_packet_injected')
+              self.send(inj[1], 1, 2, 'x' if inj[1] == 'OPEN' else '')
           elif kind == 'clse' and not st['closed']:
             st['closed'] = True
             st['closed_by_device'] = True
@@ -347,3 +352,47 @@ def plain_handshake(dev):
     return False
   dev.send('CNXN', 0x01000000, dev.maxdata, 'device:SER123:banner text')
   return True
+
+
+# ------------------------------------------------------------------ C15 bodies
+class RecordingSigner(object):
+  """An AuthSigner that records what it is asked to sign."""
+
+  def __init__(self, sim, k):
+    self.sim = sim
+    self.k = k
+
+  def sign(self, data):
+    self.sim.event('sign', self.k, data)
+    return 'SIG%d(%s)' % (self.k, data)
+
+  def get_public_key(self):
+    self.sim.event('get_public_key', self.k)
+    return 'PUB%d' % self.k
+
+
+def scripted_handshake(batches):
+  """Device side of connect(): batch i is sent after the host's i-th message."""
+
+  def run(dev):
+    for i, batch in enumerate(batches):
+      m = dev.recv(5.0)
+      if m is None:
+        return False
+      dev.sim.event('dev_got', m[0], m[1], m[3][:24])
+      for pkt in batch:
+        kind = pkt[0]
+        if kind == 'raw':
+          for chunk in pkt[1]:
+            dev.tr.d2h.put(chunk)
+          dev.sim.event('d2h_raw', len(pkt[1]))
+        else:
+          dev.send(pkt[0], pkt[1], pkt[2], pkt[3])
+    # keep listening so that late host messages are audited too
+    while True:
+      m = dev.recv(2.0)
+      if m is None:
+        return False
+      dev.sim.event('dev_got', m[0], m[1], m[3][:24])
+
+  return run
